@@ -452,8 +452,15 @@ func (handler *Handler) ProxyClientConnection(ctx context.Context, errCh chan<- 
 				handler.setQueryHandler(handler.QueryResponseHandler)
 			}
 			break
-		case CommandStatementClose, CommandStatementSendLongData:
-			clientLog.Debugln("Close|SendLongData command")
+		case CommandStatementClose:
+			clientLog.Debugln("Close command")
+			// the database drops the statement (COM_STMT_CLOSE has no answer): drop it here too, otherwise the registry
+			// keeps every statement a connection has ever prepared
+			if len(data) >= 4 {
+				handler.registry.DeleteStatementByID(strconv.FormatUint(uint64(binary.LittleEndian.Uint32(data)), 10))
+			}
+		case CommandStatementSendLongData:
+			clientLog.Debugln("SendLongData command")
 		case CommandStatementReset:
 			clientLog.Debugln("Reset Request Statement")
 			handler.setQueryHandler(handler.ResetStatementResponseHandler)
